@@ -3,7 +3,7 @@
 From PV Require Import Base.Prelude Base.Slice Model.EncodeBase Model.Encode Model.EncodeCompose Model.EncodeDHCP
      Spec.EncodeRef Spec.EncodeRefDHCP
      Proofs.Encode Proofs.EncodeIP4 Proofs.EncodeEther Proofs.EncodeMisc Proofs.EncodeCompose Proofs.EncodeDHCP
-     Proofs.EncodeDNS Proofs.EncodeIP6Frame Proofs.EncodeRound3 Proofs.EncodeReuse Proofs.EncodeReuse2.
+     Proofs.EncodeDNS Proofs.EncodeIP6Frame Proofs.EncodeRound3 Proofs.EncodeReuse Proofs.EncodeReuse2 Proofs.EncodePure.
 Open Scope N_scope.
 
 (* EncodeEther: for every buffer of capacity >= 14 (any length, any contents), every
@@ -702,3 +702,27 @@ Example C03_ip6_append_absolute_ex :
             len r = 43%nat /\ ref_ip6 (view r) = Some (ip6_expected_ref 58 64 s s [1;2;3]).
 Proof. exact ip6_append_absolute_ex. Qed.
 Print Assumptions C03_ip6_append_absolute_ex.
+
+(* ENCODERS ARE PURE IN THEIR ARGUMENTS.  An encoder call of the model is a function of its arguments and of the
+   destination buffer only ([call]: any function slice -> result * storage; every encoder of Model/Encode*.v is
+   one, see call_of / dhcp4_call / udp4_frame_call / ip4_append_call).  For any world of buffers and ANY schedule
+   [cs] interleaving the calls of several callers: the content of buffer i at the end and the results of the
+   calls on buffer i are those of these calls executed alone, in their order — same arguments + same destination
+   => same bytes, independent of any other call.  Tie: harness kinds conc (goroutines encoding at the same time,
+   each into its own buffers, must observe the model's = sequential result) and globals (package-level variables
+   under the encoders). *)
+Theorem C03_encode_deterministic : forall (cs : list call) (w : world) (i : nat),
+  (i < length w)%nat ->
+  let '(w', rs) := exec w cs in
+  let '(a', rs') := alone (nth i w []) (mine i cs) in
+  nth i w' [] = a' /\ results_of i rs = rs'.
+Proof. exact encode_deterministic. Qed.
+Print Assumptions C03_encode_deterministic.
+
+Example C03_encode_deterministic_ex :
+  let d := dhcp4_call 0 0 2 5 None [] [192;168;0;9] None false [(1, [255;255;255;0]); (3, [192;168;0;1])] [3; 1] [53] in
+  let f := udp4_frame_call 1 0 [2;0;0;0;0;1] [2;0;0;0;0;9] 64 [10;0;0;1] [10;0;0;2] 68 67 [1;2;3] in
+  let w := [repeat 7 320; repeat 9 64] in
+  fst (exec w [d; f; d]) = fst (exec w [f; d; d]) /\ nth 0 (fst (exec w [d; f])) [] <> repeat 7 320.
+Proof. exact encode_deterministic_ex. Qed.
+Print Assumptions C03_encode_deterministic_ex.
